@@ -66,6 +66,11 @@ def _rebound(stmts_):
         for n in ast.walk(st):
             if isinstance(n, ast.Name) and isinstance(n.ctx, (ast.Store, ast.Del)):
                 names.add(n.id)
+            elif isinstance(n, ast.Call):
+                # lowered Cython `f(&x)` is `f(+x)`: the callee may write x
+                for a in n.args:
+                    if isinstance(a, ast.UnaryOp) and isinstance(a.op, ast.UAdd) and isinstance(a.operand, ast.Name):
+                        names.add(a.operand.id)
             elif isinstance(n, (ast.Subscript, ast.Attribute)) and isinstance(n.ctx, (ast.Store, ast.Del)):
                 b = n
                 while isinstance(b, (ast.Subscript, ast.Attribute)):
